@@ -99,6 +99,8 @@ def gen_script(rnd):
             elif funs and c < 0.95:
                 g, gar, gres = rnd.choice(funs)
                 st = "%s(%s)%s" % (g, ", ".join(rnd.choice(names) for _ in range(gar)), "[0]" if gres > 1 else "")
+                if gres == 0:
+                    st = "%s * 1\n    %s" % (x, st)
                 f = "nested-call"
             else:
                 st, f = "%s - %s" % (x, y), "lin"
@@ -114,6 +116,13 @@ def gen_script(rnd):
         lines.append("@subqap(\"%s\")" % fnames[k])
         lines.append("def f%d(%s):" % (k, ", ".join(args)))
         lines.extend(body)
+        if rnd.random() < 0.15:
+            # an assertion-only sub-circuit: no return value
+            lines.append("    (%s * %s).assert_eq(%s * %s)" % (names[0], names[-1], names[-1], names[0]))
+            lines.append("    return None")
+            funs.append(("f%d" % k, ar, 0))
+            shapes.add("no-return-value")
+            continue
         lines.append("    return %s" % (res[0] if nres == 1 else "[" + ", ".join(res) + "]"))
         funs.append(("f%d" % k, ar, nres))
     vals = [rnd.choice([0, 1, 2, 3, 5, 7, -1, -4, 12, p + 2, p - 1, -p - 3, (1 << 260) + 5]) if rnd.random() < 0.25 else rnd.randint(0, 9) for _ in range(rnd.randint(2, 4))]
@@ -128,8 +137,11 @@ def gen_script(rnd):
         x = rnd.choice(names)
         for j, cst in enumerate(rnd.sample([1, 2, 3, 5], 2)):
             args = [x] + [str(cst)] * (gar - 1) if gar > 1 else [x]
-            lines.append("q%d = %s(%s)%s" % (j, g, ", ".join(args), "[0]" if gres > 1 else ""))
-            names.append("q%d" % j)
+            if gres == 0:
+                lines.append("%s(%s)" % (g, ", ".join(args)))
+            else:
+                lines.append("q%d = %s(%s)%s" % (j, g, ", ".join(args), "[0]" if gres > 1 else ""))
+                names.append("q%d" % j)
             ncalls += 1
         shapes.add("same-function-different-constants")
     for j in range(rnd.randint(1, 5)):
@@ -151,6 +163,10 @@ def gen_script(rnd):
                 else:
                     args.append(str(rnd.randint(0, 5)))
                     shapes.add("const")
+            if gres == 0:
+                lines.append("%s(%s)" % (g, ", ".join(args)))
+                ncalls += 1
+                continue
             lines.append("r%d = %s(%s)%s" % (j, g, ", ".join(args), "[%d]" % rnd.randrange(gres) if gres > 1 else ""))
             ncalls += 1
         else:
@@ -255,7 +271,18 @@ def validate(R, qap, wd, src, cell, err, rc, digests):
         R.violation("file-unparsable", "cannot parse backend files: %s" % e, **det)
         return
     ncomp = 0
-    # (1) every equation satisfied by wire + I/O values
+    # (0) what the external tools find on disk when the proving step starts them must already be complete
+    for fn_, full in (("pysnark_values", io_t), ("pysnark_wires", wires_t), ("pysnark_eqs", eqs_t)):
+        snap_t = rd(fn_ + ".at_prove")
+        if snap_t is None:
+            continue
+        R.count("files_snapshotted_at_proving_time")
+        if "qb.prove()" in src:
+            continue        # an explicit mid-run prove(): later content is legitimately absent from that snapshot
+        strip = lambda t: [ln.strip() for ln in t.splitlines() if ln.strip() and not ln.strip().startswith("#")]
+        if strip(snap_t) != strip(full):
+            problems.append(("file-incomplete-at-proving-time", "%s as the external tools see it at proving time lacks %d line(s) that only appear at interpreter exit" % (
+                fn_, len(strip(full)) - len(strip(snap_t)))))
     neq = 0
     for it in items:
         if it[0] != "eq":
